@@ -95,7 +95,10 @@ def _read_trace(path):
         with open(path, encoding="utf-8") as f:
             for line in f:
                 parts = line.rstrip("\n").split("\t")
-                if parts[0] == "!fired":
+                if parts[0] == "!noeffect":
+                    # the fault of that index fired but could not take effect: not a fault that happened
+                    fired[:] = [x for x in fired if x[0] != int(parts[1])]
+                elif parts[0] == "!fired":
                     fired.append([int(parts[1]), parts[2]])
                 else:
                     trace.append([int(parts[0]), parts[1], parts[2], parts[3]])
